@@ -37,6 +37,7 @@ static bool makeInitial0(const json& src, NifFile& nif, Ctx& ctx, std::string* f
 		if (src.contains("attach")) {
 			// populated blocks of arbitrary registered types hung below a shape (type-fitting, via carrier blocks if needed)
 			auto& types = allBlockTypes();
+			setStage("synth:attach"); // a fault of the generating read (deliberately odd counts) is a rejected input, as in synth:generate
 			for (auto& a : src["attach"]) {
 				auto shapes = nif.GetShapes();
 				if (shapes.empty()) return false;
@@ -49,8 +50,11 @@ static bool makeInitial0(const json& src, NifFile& nif, Ctx& ctx, std::string* f
 			SaveOut so = saveNif(nif, SaveSpec());
 			if (so.rc != 0) return false;
 			if (fileBytes) *fileBytes = so.bytes;
-			return loadNif(nif, so.bytes).rc == 0;
+			bool ok = loadNif(nif, so.bytes).rc == 0;
+			setStage("init");
+			return ok;
 		}
+		setStage("init");
 		return true;
 	}
 	return false;
